@@ -32,12 +32,16 @@ def make_disc(r, tmp):
     for i in range(12):
         specs.append((r.choice('$CD'), 'F%d' % i, r.choice([1, 100, 256, 700])))
     for d, nm, ln in specs:
+        if nm in ('SMALL', 'PAGE1', 'F3', 'F7'):
+            pos += r.choice([1, 2, 30, 60])          # leave free spans of several sizes between the files
         if nm in ('TEXT', 'BIG'):
             body = b''.join((b'line %d of the file %s\r' % (k, nm.encode())) for k in range(ln // 20))[:ln].ljust(ln, b'.')
         else:
             body = r.randbytes(ln)
         ents.append(dm.Entry(d, nm, False, 0x1900, 0x8023, ln, pos, body))
         pos += (ln + 255) // 256
+    # a small file near the end: the last free span is short, the largest one lies in the middle
+    ents.append(dm.Entry('$', 'TAIL', False, 0, 0, 256, 397, r.randbytes(256)))
     cat = dm.Cat(b'FAULTS', 0, 5, 2, 400, dm.catalogue_order(ents))
     s = dm.Surface('acorn', 40, 10, [dm.Volume(None, 0, 400, 0, cat)], 0x1234, 0)
     path = os.path.join(tmp, 'f.ssd')
@@ -184,6 +188,9 @@ def case(spec):
             prog, _ = bg.gen_prog(rr, d, maxlines=[3, 40, 200, 600][ci % 4], long_lines=True)
             ppath = os.path.join(tmp, 'p.bbc')
             write_file(ppath, prog)
+            if ci % 5 == 4 and d in ('Z80', '8086', 'Windows', 'SDL', 'MacOSX'):
+                prog = prog + bytes(rr.getrandbits(8) for _ in range(rr.choice([1, 3, 40])))   # stray bytes after the end marker
+                write_file(ppath, prog)
             kinds = [['--dialect=' + d, ppath], ['--dialect=' + d, '-'], ['--help'], ['--dialect=help', ppath], ['-D', '-'],
                      ['--dialect=' + d, '--listo=0', ppath, ppath]]
             cmd = kinds[ci % len(kinds)]
@@ -267,7 +274,10 @@ def extract_case(spec):
                 sizes = sorted(set(e.length for e in ents))
                 biggest = max(sizes)
             else:
-                biggest = 256 * (400 - max(e.start + e.nsectors for e in ents))
+                from .. import refmodel as rm_
+                runs = rm_.unused_runs(surf)
+                biggest = 256 * max(c for _, c in runs)
+                res.seen('unused_spans', len(runs))
             cands = [0, 1, 4, 255, 256, 257, 4095, 4096, 4097, 8191, 8192, 8193, biggest - 1, biggest - 4096, biggest // 2] + \
                     [r.randrange(0, biggest) for _ in range(6 if tier == 'quick' else 40)]
             for n in sorted(set(c for c in cands if 0 <= c < biggest)):
@@ -292,8 +302,9 @@ def extract_case(spec):
                 victim = e.name + r.choice(['', '.inf'])
                 size = e.length if not victim.endswith('.inf') else 30
             else:
-                first = max(x.start + x.nsectors for x in ents)
-                victim = 'unused_%03X.bin' % first
+                from .. import refmodel as rm_
+                runs = rm_.unused_runs(surf)
+                victim = 'unused_%03X.bin' % r.choice(runs)[0]
                 size = 1000
             how = r.choice(['dir', 'devfull', 'dangling'])
             vp = os.path.join(dest, victim)
@@ -336,7 +347,7 @@ def main(tier, seed, scale=1.0):
         for mode in ('fsize', 'pipe', 'devfull'):
             for variant in (['rel'] if q and ci % 3 else ['rel', 'san']):
                 specs.append((seed, 'dfs', ci, mode, variant, tier))
-    for ci in range(12 if q else 240):
+    for ci in range(30 if q else 240):
         for mode in ('fsize', 'pipe', 'devfull'):
             specs.append((seed, 'basic', ci, mode, 'rel' if ci % 2 else 'san', tier))
     for i in range(8 if q else 300):
